@@ -135,6 +135,8 @@ class TmpFile:
             raise Crash()
         self.buf.append(s)
         return len(s)
+    def fileno(self):
+        return self.f.fileno()
     def flush(self):
         for s in self.buf:
             self.f.write(s)
@@ -161,9 +163,28 @@ def shim_open(path, mode='r', *a, **kw):
             raise Crash()
         return TmpFile(f)
     return real_open(path, mode, *a, **kw)
+TMP_FDS = set()
 class OsProxy:
     def __getattr__(self, name):
         return getattr(real_os, name)
+    # the same crash points when the temp file is created through the os-level calls (os.open + os.fdopen) instead of open()
+    def open(self, path, flags, *a, **kw):
+        if PLAN.k is not None and isinstance(path, str) and path.endswith('.tmp') and flags & (real_os.O_WRONLY | real_os.O_RDWR):
+            if PLAN.k == 0:
+                raise Crash()
+            fd = real_os.open(path, flags, *a, **kw)
+            if PLAN.k == 1:
+                real_os.close(fd)
+                raise Crash()
+            TMP_FDS.add(fd)
+            return fd
+        return real_os.open(path, flags, *a, **kw)
+    def fdopen(self, fd, *a, **kw):
+        f = real_os.fdopen(fd, *a, **kw)
+        if fd in TMP_FDS:
+            TMP_FDS.discard(fd)
+            return TmpFile(f)
+        return f
     def rename(self, a, b):
         real_os.rename(a, b)
         if PLAN.k == 4:
@@ -730,9 +751,14 @@ class Gen:
         rng, mode, fs = self.rng, self.h['mode'], self.h['file_size']
         self.ident += 1
         r = rng.random()
-        if r < 0.08:
-            raws = {'bin': [b'', b'\n', b'\x00\xff', b'a\nb'], 'binl': [b'', b'\xc3\xa9', b'a\nb', b'\x00'],
-                    'txt': [b'', b'\xc3\xa9', b'a\nb', b' '], 'json': [b'true', b'[]', b'{}', b'""', b'"\\u00e9"', b'-1']}[mode]
+        if r < 0.12:
+            # incl. the characters str.splitlines() / bytes.splitlines() treat as line ends although the log format does not
+            # (\r, \v, \f, \x1c-\x1e, NEL, LS, PS): one written record is one record read, by read() and by read_block()
+            raws = {'bin': [b'', b'\n', b'\x00\xff', b'a\nb', b'a\rb'],
+                    'binl': [b'', b'\xc3\xa9', b'a\nb', b'\x00', b'a\rb', b'cr\r', b'x\x0by\x0cz'],
+                    'txt': [b'', b'\xc3\xa9', b'a\nb', b' ', b'a\rb', b'tail\r', b'x\x0by', b'p\x0cq', b'f\x1cg\x1dh\x1ei',
+                            b'n\xc2\x85l', b'l\xe2\x80\xa8s', b'p\xe2\x80\xa9s'],
+                    'json': [b'true', b'[]', b'{}', b'""', b'"\\u00e9"', b'-1', b'"a\\rb\\u2028c"']}[mode]
             return ('r', list(rng.choice(raws)))
         ln = rng.choice([0, 1, rng.randint(0, 3 * fs), rng.randint(0, 3 * fs), max(0, fs - 1), fs, fs + 1, 3 * fs])
         kind = rng.choice([1, 2, 3, 3]) if mode == 'json' else 0
